@@ -146,6 +146,12 @@ def _default(o: Any) -> Any:
         return un()
     if isinstance(o, tuple):
         return list(o)
+    from collections.abc import Mapping, Sequence as Seq
+
+    if isinstance(o, Mapping):
+        return dict(o)
+    if isinstance(o, Seq) and not isinstance(o, (str, bytes)):
+        return list(o)
     return repr(type(o).__name__)
 
 
@@ -265,7 +271,10 @@ class Ctx:
         return h[:16]
 
 
-def in_child(fn: Any, timeout: float = 120.0) -> Any:
+CHILD_UNUSABLE = [False]  # set once a reference child of this process did not answer
+
+
+def in_child(fn: Any, timeout: float = 30.0) -> Any:
     """Run ``fn()`` in a forked child of this process and return its (picklable) result.
 
     Used to compute *references* before the run itself touches process-global state with other
@@ -275,7 +284,10 @@ def in_child(fn: Any, timeout: float = 120.0) -> Any:
     import os
     import pickle
     import select
+    import signal
 
+    if CHILD_UNUSABLE[0]:
+        return fn()
     r, w = os.pipe()
     pid = os.fork()
     if pid == 0:
@@ -291,21 +303,35 @@ def in_child(fn: Any, timeout: float = 120.0) -> Any:
             os._exit(0)
     os.close(w)
     chunks = []
+    timed_out = False
     try:
         with os.fdopen(r, "rb") as f:
             while True:
                 ready, _, _ = select.select([f], [], [], timeout)
                 if not ready:
-                    raise HarnessError("reference child timed out")
+                    timed_out = True
+                    break
                 b = f.read(65536)
                 if not b:
                     break
                 chunks.append(b)
     finally:
+        if timed_out:
+            try:
+                os.kill(pid, signal.SIGKILL)
+            except ProcessLookupError:
+                pass
         try:
             os.waitpid(pid, 0)
         except ChildProcessError:
             pass
+    if timed_out:
+        # A forked child inherits the library's objects but not its threads: code under test that keeps a helper
+        # thread (a lazily created executor, say) waits for ever in the child.  That is this harness's way of
+        # isolating a reference, not the library's fault: fall back to computing in this process (less isolation,
+        # never a wrong verdict about correct code) and stop forking for the rest of this process.
+        CHILD_UNUSABLE[0] = True
+        return fn()
     kind, val = pickle.loads(b"".join(chunks))
     if kind == "err":
         raise HarnessError(f"reference child failed: {val}")
